@@ -5,23 +5,35 @@ From NV Require Import Bytes GenConsts ReSyntax ReParse ReEmit ReVM.
 Import ListNotations.
 Local Open Scope N_scope.
 
-(* re_groupcount (after fix f534655): skip = bytes the C loop steps over without looking at them:
-     if (s[0] == '\\' && s[1]) s += 2;
-     else if (s[0] == '[') { the statements of regex.c's brk_len(), on the pointer }      -- s += brk_len(s)
-     else { if (s[0] == '(') n++; s++; }                                                              *)
-Fixpoint gcount (s : bytes) (skip : nat) (n : nat) : nat :=
+(* re_groupcount: the number of groups of a pattern, or None (= -1) when the pattern is not self-contained:
+   an unmatched ')' or an unclosed '(' (dep), a lone backslash at the end, an unclosed bracket.
+   skip = bytes the C loop steps over without looking at them:
+     if (s[0] == backslash) { if (!s[1]) return -1; s += 2; }
+     else if (s[0] == '[') { the statements of regex.c's brk_len(), on the pointer; if (s[0] != ']') return -1; s++; }
+     else { if (s[0] == '(') n++, dep++;  if (s[0] == ')' && --dep < 0) return -1;  s++; }
+     ... return dep ? -1 : n;                                                                     *)
+(* did the bracket scan of brk_len stop at a ']' ? *)
+Definition brk_closed (s : bytes) : bool :=
+  let n1 := if nthb s 1 =? 94 then 2%nat else 1%nat in
+  let n2 := if nthb s n1 =? 93 then S n1 else n1 in
+  let n := (n2 + brk_body false (skipn n2 s))%nat in
+  nthb s n =? 93.
+Fixpoint gcount (s : bytes) (skip : nat) (n dep : nat) : option nat :=
   match s with
-  | [] => n
+  | [] => if Nat.eqb dep 0 then Some n else None
   | c :: r =>
     match skip with
-    | S k => gcount r k n
+    | S k => gcount r k n dep
     | O =>
-      if (c =? 92) && negb (hd0 r =? 0) then gcount r 1 n
-      else if c =? 91 then gcount r (brk_len s - 1) n
-      else gcount r 0 (if c =? 40 then S n else n)
+      if c =? 92 then (match r with [] => None | _ :: _ => gcount r 1 n dep end)
+      else if c =? 91 then (if brk_closed s then gcount r (brk_len s - 1) n dep else None)
+      else if c =? 40 then gcount r 0 (S n) (S dep)
+      else if c =? 41 then (match dep with O => None | S d => gcount r 0 n d end)
+      else gcount r 0 n dep
     end
   end.
-Definition re_groupcount (s : bytes) : nat := gcount s 0 0.
+Definition re_groupcount_opt (s : bytes) : option nat := gcount s 0 0 0.
+Definition re_groupcount (s : bytes) : nat := match re_groupcount_opt s with Some n => n | None => 0%nat end.
 
 (* the number of groups of a parse tree = what rnode_grpnum returns *)
 Fixpoint ngroups (t : node) : nat :=
@@ -80,6 +92,9 @@ Definition rset_shape (res : list (option bytes)) : bool :=
 Definition rset_make (res : list (option bytes)) (flg : Z) : ReSyntax.res (option rset) :=
   let '(sb, g, sg, gc) := rset_build res [40] 2 in
   let cflg := if has flg RE_ICASE then REG_ICASE else 0%Z in
+  (* if (bad || regcomp(...)): a pattern that is not self-contained fails the whole set, regcomp is not called
+     (the group tables computed with a count of -1 are never seen) *)
+  if existsb (fun p => match re_groupcount_opt p with None => true | Some _ => false end) (somes res) then Ok None else
   do p <- regcomp (sb ++ [41]);
   match p with
   | None => Ok None
